@@ -257,7 +257,11 @@ func (o *oracleRun) step(line, res string) string {
 			o.writes = append(o.writes, oWrite{h.key, off, off + int64(n)})
 		}
 		return ""
-	case "read", "readat":
+	case "read", "readat", "copyout":
+		isCopy := t[0] == "copyout"
+		if isCopy { // everything from the handle's position to the end; the handle stands at the end afterwards
+			t = []string{"read", t[1], "1099511627776"}
+		}
 		want64 := int64(atoi(t[2]))
 		got, _ := field(res, "bytes")
 		srv, _ := field(res, "srv")
@@ -313,7 +317,7 @@ func (o *oracleRun) step(line, res string) string {
 			return fmt.Sprintf("%s returned %s, the server holds %s at offset %d", t[0], got, contentStr(w), off)
 		}
 		wantErr := "-"
-		if int64(len(w)) < want64 {
+		if int64(len(w)) < want64 && !isCopy { // (the end of the file is not an error of io.Copy)
 			wantErr = "eof"
 		}
 		if e != wantErr {
